@@ -2,6 +2,8 @@ pub mod vclock;
 pub mod lattice;
 pub mod orswot;
 pub mod mvreg;
+pub mod ident;
+pub mod glist;
 
 use serde::{de::DeserializeOwned, Serialize};
 
